@@ -78,8 +78,9 @@ class Monitors:
         self.keep_reports = set()  # requeued by a reload: the interrupted run's reports stay
         self.last_run_vals = {}  # trial id -> objective values reported in the current run {step: [v..]}
 
-    def reset_process(self, o):
-        """a new process: nothing is handed out; the reports of interrupted runs are what the files hold"""
+    def reset_process(self, o, waiting=()):
+        """a new process: nothing is handed out; the reports of interrupted runs are what the files hold; `waiting`: trials
+        that had ended INVALID and were waiting for their retry when the state was saved - their retry starts from no reports"""
         self.out = {}
         self.asked, self.told = set(), set()
         # the values a re-run carries are the ones the trial files hold (a report lost in the crash is lost)
@@ -88,6 +89,10 @@ class Monitors:
         for tid in o._retry_queue:
             t = o.trials[tid]
             per = {}
+            if tid in waiting:
+                self.last_run_vals[tid] = {}
+                self.keep_reports.discard(tid)
+                continue
             if t.metrics.exists(o.objective.name):
                 for ob in t.metrics.get_history(o.objective.name):
                     per[ob.step] = list(ob.value)
@@ -213,11 +218,20 @@ class Monitors:
             best = self.expected_score(o, tid)
             nan_obj = best != best
         if oc == "INVALID" or nan_obj:
+            also = []
+            if nan_obj and st == "COMPLETED":
+                # C04: a trial whose objective is NaN never counts as completed (score = best over the steps of the per-step mean)
+                also = [Violation("C04", f"trial {tid} reported {self.last_run_vals.get(tid)} per step: every per-step mean of the objective is NaN, yet it is COMPLETED "
+                                         f"with score {o.trials[tid].score}", {"tag": "nan-objective-completed"})]
             if self.runs[tid] < R1:
                 if st != "INVALID" or tid not in o._retry_queue or tid in o.end_order:
-                    raise Violation("C03", f"INVALID run {self.runs[tid]}/{R1} of {tid} not queued for retry (status {st}, rq {o._retry_queue})")
+                    v = Violation("C03", f"INVALID run {self.runs[tid]}/{R1} of {tid} not queued for retry (status {st}, rq {o._retry_queue})")
+                    v.also = also
+                    raise v
             elif st != "FAILED" or tid not in o.end_order:
-                raise Violation("C03", f"trial {tid} run {self.runs[tid]} times (limit {R1}) should be FAILED, is {st}")
+                v = Violation("C03", f"trial {tid} run {self.runs[tid]} times (limit {R1}) should be FAILED, is {st}")
+                v.also = also
+                raise v
         elif oc == "FAILED":
             if st != "FAILED" or tid in o._retry_queue or tid not in o.end_order:
                 raise Violation("C03", f"FAILED trial {tid} not final: {st} rq={o._retry_queue}")
@@ -226,7 +240,10 @@ class Monitors:
             if st != "COMPLETED" or tid not in o.end_order:
                 raise Violation("C03", f"normally finished run of {tid} gives status {st}", {"tag": "retry-not-completed"})
             if sc != best:
-                raise Violation("C03", f"trial {tid} COMPLETED with score {sc}, this run's score is {best}", {"tag": "score-not-this-run"})
+                v = Violation("C03", f"trial {tid} COMPLETED with score {sc}, this run's score is {best}", {"tag": "score-not-this-run"})
+                v.also = [Violation("C04", f"trial {tid} reported {self.last_run_vals.get(tid)} per step ({o.objective.direction}): its score {sc} is not the best of the "
+                                           f"per-step means {best}", {"tag": "score-not-best-step-mean"})]
+                raise v
         if st in ("COMPLETED", "FAILED"):
             self.ended_final.add(tid)
 
@@ -348,6 +365,8 @@ def scenario(sseed, kind, mode, res, crash_at=None, second=None, maxlen=60):
                     disk_end = json.load(open(ofile))["end_order"]
                 before = {tid: (t.status, t.score) for tid, t in o.trials.items()}
                 exp_rq = list(o._retry_queue) + [t.trial_id for t in o.ongoing_trials.values()]
+                queued_ongoing = {t.trial_id for t in o.ongoing_trials.values()}
+                old_rq = list(o._retry_queue)
                 queued_before = set(exp_rq)
                 n2 = gen.clone_oracle(o, d)
                 try:
@@ -379,7 +398,15 @@ def scenario(sseed, kind, mode, res, crash_at=None, second=None, maxlen=60):
                 for tid in disk_end:
                     t = o.trials.get(tid)
                     if t is None or (t.status, fl_str(t.score)) != (before[tid][0], fl_str(before[tid][1])):
-                        raise Violation(pid, f"trial {tid} in the saved end_order changed: {before[tid]} -> {(t.status, t.score) if t else None}")
+                        what = f"trial {tid} in the saved end_order changed: {before[tid]} -> {(t.status, t.score) if t else None}"
+                        v = Violation(pid, what)
+                        if not after_crash:
+                            # the same fact for the lifecycle (C01: once ended, recorded as COMPLETED or FAILED) and the retry policy (C03: FAILED is final)
+                            v.also = [Violation("C01", "after save + reload, " + what + ": an ended trial is no longer recorded as it ended", {"tag": "ended-changed-by-reload"})]
+                            if before[tid][0] == "FAILED":
+                                v.also.append(Violation("C03", "after save + reload, " + what + ": FAILED is final (the streak of consecutive failures is counted over it)",
+                                                        {"tag": "failed-not-final-after-reload"}))
+                        raise v
                     if tid in o._retry_queue or tid in [x.trial_id for x in o.ongoing_trials.values()]:
                         raise Violation(pid, f"ended trial {tid} is queued/ongoing after reload")
                 for tid, t in o.trials.items():
@@ -389,8 +416,15 @@ def scenario(sseed, kind, mode, res, crash_at=None, second=None, maxlen=60):
                     # again, whatever its file says (INVALID while waiting for a retry, RUNNING, ...) - otherwise it is
                     # never issued again, never ends, and still uses up one unit of the budget
                     if tid not in o.end_order and tid not in o._retry_queue:
-                        raise Violation(pid, f"after reload trial {tid} ({t.status}) is neither ended nor queued to be run again: it is lost "
-                                             f"(retry queue {o._retry_queue}, end order {o.end_order})", {"tag": "unfinished-not-queued"})
+                        what = (f"after reload trial {tid} ({t.status}) is neither ended nor queued to be run again: it is lost "
+                                f"(retry queue {o._retry_queue}, end order {o.end_order})")
+                        v = Violation(pid, what, {"tag": "unfinished-not-queued"})
+                        if not after_crash:
+                            # C01: once ended a trial is COMPLETED, FAILED or queued for retry - never lost (a save and a reload do not end a search)
+                            v.also = [Violation("C01", what, {"tag": "lost-by-reload"})]
+                            if tid in old_rq:
+                                v.also.append(Violation("C03", f"trial {tid} had ended INVALID and was waiting for its retry; " + what + ": it is never issued again", {"tag": "retry-lost-by-reload"}))
+                        raise v
                 if set(o.start_order) != set(o.trials) or len(set(o.start_order)) != len(o.start_order):
                     raise Violation(pid, f"after reload trials {sorted(o.trials)} vs start_order {o.start_order}")
                 if o.max_trials and len(o.trials) > o.max_trials:
@@ -412,7 +446,7 @@ def scenario(sseed, kind, mode, res, crash_at=None, second=None, maxlen=60):
                     if o._seed_state != old._seed_state or o._tried_so_far != old._tried_so_far:
                         raise Violation("C07", "seed state / tried set changed by save/reload")
                 hold = {}
-                mon.reset_process(o)
+                mon.reset_process(o, waiting=() if after_crash else set(old_rq))
                 return True
 
             stopped = set()
@@ -465,9 +499,15 @@ def scenario(sseed, kind, mode, res, crash_at=None, second=None, maxlen=60):
                         oc = R.choice(["C", "C", "C", "NAN", "INV", "FAIL"])
                         if oc in ("C", "NAN"):
                             nrep = 1 if oc == "NAN" else R.choice([1, 1, 2, 3])
-                            for _ in range(nrep):
-                                val = float("nan") if oc == "NAN" else float(R.choice([0, 1, 2, -1, 3, 0.5, 2.5, float("inf"), float("-inf")]))
-                                step = R.choice([0, 0, 1, 2])
+                            # several executions may report at the same step, and one of them may have diverged (NaN): that step's
+                            # mean is NaN (it is ignored for the best value unless every step is NaN)
+                            mixed = oc == "C" and nrep >= 2 and R.random() < 0.3
+                            same_step = R.choice([0, 1]) if mixed else None
+                            for j_ in range(nrep):
+                                val = float("nan") if oc == "NAN" or (mixed and j_ == 0) else float(R.choice([0, 1, 2, -1, 3, 0.5, 2.5, float("inf"), float("-inf")]))
+                                step = R.choice([0, 0, 1, 2]) if (same_step is None or (j_ >= 2 and R.random() < 0.5)) else same_step
+                                if mixed and j_ == 0:
+                                    tags["nan-among-executions-of-a-step"] += 1
                                 lines.append(dict(suite="oracle", op="update", id=int(t.trial_id), step=step, value=fl(val)))
                                 expect.append("ok")
                                 quiet(o.update_trial, t.trial_id, {"score": val}, step=step)
@@ -532,8 +572,12 @@ def scenario(sseed, kind, mode, res, crash_at=None, second=None, maxlen=60):
                             except Violation as v:
                                 found.append(v)
                         if found:
-                            found[0].also = found[1:]
-                            raise found[0]
+                            flat = []
+                            for v_ in found:
+                                flat.append(v_)
+                                flat += list(getattr(v_, "also", []))
+                            flat[0].also = flat[1:]
+                            raise flat[0]
                         if aborted:
                             expect.append("ABORT")
                             tags["abort"] += 1
